@@ -525,24 +525,19 @@ class Defs:
 class Sink(Ctx):
     """a ctx-like object that only records (used to re-run a rule core on a mutant)."""
 
-    def __init__(self, base, tier="quick"):  # noqa: D401  (deliberately not calling Ctx.__init__)
-        self.prop = base.prop
+    def __init__(self, base, tier="quick"):  # noqa: D401  (deliberately not calling Ctx.__init__: no second Repo parse)
+        import copy as _copy
+        # start from whatever the shared Ctx carries (robust against new bookkeeping fields), then reset the collections
+        for k, v in base.__dict__.items():
+            if isinstance(v, (list, dict, set)):
+                self.__dict__[k] = type(v)()
+            else:
+                self.__dict__[k] = v
         self.tier = tier
-        self.seed = base.seed
-        self.repo_root = base.repo_root
-        self.repo = base.repo
-        self.t0 = base.t0
-        self.obligations = []
-        self.findings = []
-        self.notes = []
-        self.assumptions = []
         self.explanation = ""
-        self.counts = {}
-        self.floors = {}
-        self.functions_analysed = set()
-        self.extra = {}
-        self.evidence_dir = base.evidence_dir
         self.quiet = True
+        if "_path_opaque" in self.__dict__:
+            self._path_opaque = None
 
 
 @contextlib.contextmanager
